@@ -559,6 +559,101 @@ func stringConst(f *ast.File, name string) string {
 	return s
 }
 
+func paramIsPointer(f *ast.File, fn, param string) bool {
+	fd := findFunc(f, fn)
+	for _, fl := range fd.Type.Params.List {
+		for _, n := range fl.Names {
+			if n.Name == param {
+				_, ok := fl.Type.(*ast.StarExpr)
+				return ok
+			}
+		}
+	}
+	die("%s: parameter %s not found", fn, param)
+	return false
+}
+
+// caddyHandlers: the string switch of a Caddyfile block parser: per subdirective the field that is
+// assigned and how ("val", "append", "parsebool", "const", "sub"); and whether the default case is an error
+func caddyHandlers(f *ast.File, fn string) (hs [][3]string, unknownRejected bool) {
+	fd := findFunc(f, fn)
+	var sw *ast.SwitchStmt
+	ast.Inspect(fd.Body, func(n ast.Node) bool {
+		if x, ok := n.(*ast.SwitchStmt); ok && sw == nil {
+			sw = x
+		}
+		return true
+	})
+	if sw == nil {
+		die("%s: no switch", fn)
+	}
+	for _, cl := range sw.Body.List {
+		cc := cl.(*ast.CaseClause)
+		if cc.List == nil {
+			ast.Inspect(cc, func(n ast.Node) bool {
+				if ce, ok := n.(*ast.CallExpr); ok && selName(ce.Fun) == "Errf" {
+					unknownRejected = true
+				}
+				return true
+			})
+			continue
+		}
+		key, ok := strLit(cc.List[0])
+		if !ok || len(cc.List) != 1 {
+			die("%s: case label", fn)
+		}
+		field, kind := "", ""
+		boolVars := map[string]bool{}
+		for _, st := range cc.Body {
+			as, ok := st.(*ast.AssignStmt)
+			if !ok || len(as.Rhs) != 1 {
+				continue
+			}
+			if ce, ok := as.Rhs[0].(*ast.CallExpr); ok && selName(ce.Fun) == "ParseBool" {
+				if len(ce.Args) == 1 {
+					if c2, ok := ce.Args[0].(*ast.CallExpr); ok && selName(c2.Fun) == "Val" {
+						boolVars[selName(as.Lhs[0])] = true
+					}
+				}
+				continue
+			}
+			sel, ok := as.Lhs[0].(*ast.SelectorExpr)
+			if !ok {
+				continue
+			}
+			field = sel.Sel.Name
+			switch r := as.Rhs[0].(type) {
+			case *ast.CallExpr:
+				switch selName(r.Fun) {
+				case "Val":
+					kind = "val"
+				case "append":
+					if len(r.Args) == 2 {
+						if c2, ok := r.Args[1].(*ast.CallExpr); ok && selName(c2.Fun) == "Val" && selName(r.Args[0]) == field {
+							kind = "append"
+						}
+					}
+				}
+			case *ast.Ident:
+				if boolVars[r.Name] {
+					kind = "parsebool"
+				} else if r.Name == "true" || r.Name == "false" {
+					kind = "const"
+				} else {
+					kind = "sub"
+				}
+			case *ast.BasicLit:
+				kind = "const"
+			}
+		}
+		if field == "" || kind == "" {
+			die("%s: handler of %q not understood", fn, key)
+		}
+		hs = append(hs, [3]string{key, field, kind})
+	}
+	return hs, unknownRejected
+}
+
 // sigPolicy describes how a function of crlrepository.go applies signature_validation_mode:
 //   guardNone: verification is skipped under SignatureValidationModeNone
 //   fatal: "verify_only" (a verification failure ends the intake only under ...ModeVerify),
@@ -848,6 +943,33 @@ func main() {
 		}
 		fmt.Fprintf(&out, "Definition temp_dir_prefix : string := %s.\nDefinition temp_dir_suffix : string := %s.\n", coqStr(parts[0]), coqStr(parts[1]))
 	}
+
+	// Caddyfile adapter
+	cf := parseFile("caddyfile.go")
+	out.WriteString("(* block -> [(subdirective, (field, what the handler does with its argument))] *)\n")
+	out.WriteString("Definition caddyfile_handlers : list (string * list (string * (string * string))) := [")
+	blocks := [][2]string{{"top", "parseConfigEntryFromCaddyfile"}, {"crl", "parseCaddyFileCrlConfigEntry"}, {"cdp", "parseCaddyfileCRLCDPConfig"}, {"ocsp", "parseCaddyfileOCSPConfig"}}
+	var rejects []string
+	for i, b := range blocks {
+		if i > 0 {
+			out.WriteString("; ")
+		}
+		hs, rej := caddyHandlers(cf, b[1])
+		fmt.Fprintf(&out, "(%s, [", coqStr(b[0]))
+		for j, h := range hs {
+			if j > 0 {
+				out.WriteString("; ")
+			}
+			fmt.Fprintf(&out, "(%s, (%s, %s))", coqStr(h[0]), coqStr(h[1]), coqStr(h[2]))
+		}
+		out.WriteString("])")
+		rejects = append(rejects, fmt.Sprintf("(%s, %v)", coqStr(b[0]), rej))
+	}
+	out.WriteString("].\n")
+	fmt.Fprintf(&out, "Definition caddyfile_unknown_rejected : list (string * bool) := [%s].\n", strings.Join(rejects, "; "))
+	// do the entry parsers that assign into a struct of their caller receive it by pointer?
+	fmt.Fprintf(&out, "Definition caddyfile_by_pointer : list (string * bool) := [(\"top\", %v); (\"crl\", %v)].\n",
+		paramIsPointer(cf, "parseConfigEntryFromCaddyfile", "certRevocationValidatorConfig"), paramIsPointer(cf, "parseCaddyFileCrlConfigEntry", "crlConfig"))
 
 	// signature policy of the two CRL intake paths (first load / refresh)
 	for _, fn := range []string{"loadCRL", "updateCrlEntry"} {
